@@ -640,6 +640,9 @@ pub struct WorldOpts {
     /// every object reports a very low detection confidence (0.004..0.045): exercises the min-confidence floor and
     /// the large Mahalanobis weights (100 - d2) / conf
     pub low_conf: bool,
+    /// scenes other than the first keep only one object with probability 1/2 (single-detection calls next to
+    /// multi-detection calls of another scene)
+    pub vary_nobj: bool,
 }
 
 pub const PRESETS: [&str; 7] = ["random", "crossing", "convoy", "crowd", "lookalikes", "teleport", "stop-and-go"];
@@ -651,7 +654,11 @@ pub fn gen_world(rng: &mut Rng, o: &WorldOpts) -> Vec<Obj> {
     let protos: Vec<Vec<f32>> = (0..o.nobj.max(1)).map(|_| unit(rng, o.feat_dim)).collect();
     let convoy_speed = rng.uniform(0.1, 0.9);
     for s in 0..o.scenes {
+        let lone = o.vary_nobj && s > 0 && rng.chance(0.5);
         for k in 0..o.nobj {
+            if lone && k >= 1 && !o.same_region {
+                break;
+            }
             truth += 1;
             let base_h = rng.uniform(20.0, 60.0);
             let (mut x, mut y) = (rng.uniform(100.0, 900.0), rng.uniform(100.0, 700.0));
